@@ -20,7 +20,7 @@ def filter (req : Json) : R Reply := do
     | none =>
       let after ← asGlyphSet (← field obs "glyphs")
       return { model, holds := holdsSkip skip gs after, info := strsJ (skipWrong skip gs after),
-               hyp := Json.bool (goodCert gs (depthCert gs)) }
+               hyp := Json.bool (wfCert gs) }
 
 /-- op "compile": in = {tol, glyphs, skip, orderFull, advFull:[[name,adv]], cmapFull:[[u,name]]};
     obs = {err} | {order, glyphs:[[name, ops, adv]], cmap:[[u,name]]} -/
